@@ -4,4 +4,4 @@ go 1.21
 
 require github.com/dsnet/compress v0.0.0
 
-replace github.com/dsnet/compress => /tmp/repo-stable
+replace github.com/dsnet/compress => /repo
